@@ -5,7 +5,7 @@ export GOFLAGS=-mod=mod GOPROXY=off GOSUMDB=off GOTOOLCHAIN=local
 cd /verif
 for d in seeded/*${1:-}*/; do
   name=$(basename $d)
-  patch=$d/patch.diff; [ -f $d/patch-rebased.diff ] && patch=$d/patch-rebased.diff
+  patch=/verif/$d/patch.diff; [ -f /verif/$d/patch-rebased.diff ] && patch=/verif/$d/patch-rebased.diff
   checks=$(python3 -c "import json;print(' '.join(json.load(open('$d/meta.json'))['detected_by']))")
   git -C /repo diff --quiet || { echo "/repo dirty"; exit 2; }
   if ! git -C /repo apply $patch 2>/dev/null; then echo "$name: PATCH-DOES-NOT-APPLY"; continue; fi
